@@ -489,7 +489,12 @@ func runRound(cs, succ []string, data []byte, paths []snet.Path, deadline time.D
 	resets := make([]int64, len(cs))
 	for i, f := range filters {
 		resets[i] = int64(f.resets)
-		// ResetInterleavedMode and Filter.Reset go together
+		// ResetInterleavedMode and Filter.Reset go together. (Not looked at when the round ran into
+		// its deadline: abandoned per-path goroutines may still be finishing their exchange and
+		// writing the client's prev state — nothing orders those writes before this read.)
+		if late {
+			continue
+		}
 		if ref, _, _ := client.VerifC15Prev(clients[i]); f.resets > 0 && ref != "" && probes[i] == 0 {
 			return "err reset-without-interleaved-reset", false
 		}
